@@ -82,11 +82,11 @@ def replay_find(ctx, res, v):
                        "predicted": b["pred"], "real": b["real"]})
 
 
-def attribute_find(ctx, viols, gate):
+def attribute_find(ctx, viols, gate, rules=("find.mismatch",)):
     """re-runs the violating find cases with a rewrite gate on; returns those that now agree with the specification"""
     cases, idx = [], []
     for i, v in enumerate(viols):
-        if v.get("rule") in ("find.mismatch",) and "p" in v and "input" in v:
+        if v.get("rule") in rules and "p" in v and "input" in v:
             cases.append({"p": v["p"], "o": v["options"], "dia": v["dialect"], "rtl": v["rtl"], "s": v["input"]})
             idx.append(i)
     if not cases:
